@@ -203,7 +203,12 @@ struct HArray : public HashTable<Key_T, HAItem_T<Key_T, Value_T>> {
 
     void Insert(Key_T &&key, Value_T &&value) {
         if (Size() == Capacity()) {
+            // The value can be an entry of this table: take it out before the storage moves.
+            Value_T tmp{Memory::Move(value)};
+
             expand();
+            Insert(Memory::Move(key), Memory::Move(tmp));
+            return;
         }
 
         const SizeT hash = StringUtils::Hash(key.First(), key.Length());
